@@ -211,12 +211,12 @@ func (x *Exec) ufunInfo(u *UFun) *ufunInfo {
 		// lemmas about fuelled functions are stated at both fuels that occur after one unfolding
 		fuels := []Term{{}}
 		if fi.fuel {
-			fuels = append(fuels, atom("(fS fZ)", "Fuel"))
+			fuels = append(fuels, atom("(fS (fS fZ))", "Fuel"), atom("(fS fZ)", "Fuel"))
 		}
 		for fidx, fuelT := range fuels {
 			sfx := ""
 			if fidx > 0 {
-				sfx = "b"
+				sfx = string(rune('a' + fidx)) // b, c
 			}
 			env := &Env{x: x, st: nil, vars: vars, fuel: fuelT, specPkg: u.Pkg}
 			saved := c.qscope
@@ -282,7 +282,7 @@ func (x *Exec) lemmaObligations(fi *ufunInfo, ai int, ax *UAxiom) {
 	defer func() { c.qscope = outer }()
 	var excl []string
 	for j := ai; j < len(u.Axioms); j++ {
-		excl = append(excl, fmt.Sprintf("axiom.%s.%d", u.Name, j), fmt.Sprintf("axiom.%s.%db", u.Name, j))
+		excl = append(excl, fmt.Sprintf("axiom.%s.%d", u.Name, j), fmt.Sprintf("axiom.%s.%db", u.Name, j), fmt.Sprintf("axiom.%s.%dc", u.Name, j))
 	}
 	ki := -1
 	pnames, ptypes := x.axParams(fi, ax)
@@ -398,7 +398,7 @@ func (x *Exec) lemmaObligations(fi *ufunInfo, ai int, ax *UAxiom) {
 	if fi.fuel {
 		// unfolding the definition once lowers the fuel of the recursive call: the
 		// induction hypothesis is available at that fuel as well
-		ih = and(ih, mkIH(atom("(fS fZ)", "Fuel")))
+		ih = and(ih, mkIH(atom("(fS (fS fZ))", "Fuel")), mkIH(atom("(fS fZ)", "Fuel")))
 	}
 	v1, _ := mkVars(false, k1)
 	noWrap := and(c.Cmp(token.LEQ, zero, k0, kT), c.Cmp(token.LSS, k0, k1, kT), c.RangeFact(k0, kT), c.RangeFact(k1, kT))
@@ -464,7 +464,7 @@ func (env *Env) applyUFun(u *UFun, args []Expr) Value {
 	if fi.fuel {
 		f := env.fuel
 		if f.S == "" {
-			f = atom("(fS (fS fZ))", "Fuel")
+			f = atom("(fS (fS (fS fZ)))", "Fuel") // default fuel: two unfoldings below the top term
 		}
 		ts = append([]Term{f}, ts...)
 	}
